@@ -61,6 +61,18 @@ def commb_frame(rng, addr, kind):
                        (10, rng.randrange(100, 250)), (1, 1), (1, 0), (9, rng.randrange(50)), (1, 1), (10, rng.randrange(100, 250))):
             mb = (mb << w) | val
         d += [(mb >> (8 * (6 - k))) & 255 for k in range(7)]
+    elif kind == "bds60":
+        # a heading / speed report: status-consistent BDS 6,0 payload whose leading field is too large for a BDS 5,0 roll angle
+        mb = 0
+        for w, val in ((1, 1), (1, rng.randrange(2)), (10, rng.randrange(700, 1024)), (1, 1), (10, rng.randrange(120, 400)), (1, 1),
+                       (10, rng.randrange(75, 220)), (1, rng.randrange(2)), (1, rng.randrange(2)), (9, rng.randrange(0, 90)), (1, 1),
+                       (1, rng.randrange(2)), (9, rng.randrange(0, 90))):
+            mb = (mb << w) | val
+        bits = format(mb, "056b")
+        if bits[34] == "0":
+            bits = bits[:35] + "0" * 10 + bits[45:]
+        mb = int(bits, 2)
+        d += [(mb >> (8 * (6 - k))) & 255 for k in range(7)]
     elif kind == "zero":
         d += [0] * 7
     else:
@@ -225,7 +237,7 @@ def history(ctx, rng, k):
                 tc = rng.choice([1, 2, 3, 4, 19, 19, 28, 29, 31, 0, 23, 24, 27, 30, 20, 21, 22])
                 adsb.append({"f": es_frame(rng, c["addr"], tc, df=rng.choice([17, 17, 18])), "t": now, "g": 0, "a": 0, "o": 0})
             elif u < 0.93:
-                commb.append({"f": commb_frame(rng, c["addr"], rng.choice(["bds50", "rand", "zero"])), "t": now, "g": 0, "a": 0, "o": 0})
+                commb.append({"f": commb_frame(rng, c["addr"], rng.choice(["bds50", "bds60", "rand", "zero"])), "t": now, "g": 0, "a": 0, "o": 0})
             else:
                 commb.append({"f": commb_frame(rng, unknown, rng.choice(["bds50", "rand"])), "t": now, "g": 0, "a": 0, "o": 0})
         # take-off / landing near the receiver, holding a mode for more than 10 s
@@ -248,7 +260,7 @@ SCEN_RX = {1: (151440, 12810), 2: (30500, 0), 3: (0, 0), 4: (116500, 524280), 5:
 def frame_for(rng, m):
     """concrete frame for an abstract TrackerSM message (fields come from the spec's own encoder)"""
     if m["cls"] == "commb":
-        return commb_frame(rng, m["addr"], rng.choice(["bds50", "rand", "zero"]))
+        return commb_frame(rng, m["addr"], rng.choice(["bds50", "bds60", "rand", "zero"]))
     if m["cls"] == "ident":
         return es_frame(rng, m["addr"], rng.randint(1, 4))
     tc = rng.randint(9, 18) if m["cls"] == "air" else rng.randint(5, 8)
